@@ -74,6 +74,7 @@ def gen(t, tier):
           'coverage': t.weighted([('none', 2), ('bbox', 3), ('lshape', 2), ('multi', 2), ('tiny', 1), ('edge', 4)]),
           'cov_seed': [t.choice(1000), t.choice(1000), t.choice(1000), t.choice(1000)],
           'cov_srs': t.pick(['3857', '3857', '3857', '4326']),
+          'caches': t.pick([1, 1, 1, 2]),
           'skip_geoms': t.pick([0, 0, 0, 1, 2]), 'verbose': bool(t.choice(2)),
           'work': t.pick([0.0, 0.01, 0.3, 0.6, 2.0, 31.0]),
           'interrupts': []}
@@ -92,7 +93,7 @@ def shrink(sc):
             yield c
     if sc['coverage'] == 'edge':
         pass
-    for key, simple in (('coverage', 'none'), ('cov_srs', '3857'), ('meta_size', [1, 1]), ('levels', 'all'), ('skip_geoms', 0),
+    for key, simple in (('coverage', 'none'), ('caches', 1), ('cov_srs', '3857'), ('meta_size', [1, 1]), ('levels', 'all'), ('skip_geoms', 0),
                         ('verbose', True)):
         if sc.get(key, simple) != simple:
             c = copy.deepcopy(sc)
@@ -313,8 +314,11 @@ def run(sc, tape):
             state['handoffs'] += 1
             if state['interrupt_at_handoff'] == n and not state['after']:
                 _fire('handoff-before')
+            # a seed entry may name several caches (one task each): the hand-off is recorded per cache, told apart by the
+            # storage the task's tile manager writes to; the cache index is carried in the hundreds of the level
+            k = 1 if '/c2_' in getattr(self.task.tile_manager.cache, 'cache_dir', '') else 0
             for t in tiles:
-                handed.append(tuple(t))
+                handed.append((t[0], t[1], t[2] + 100 * k))
             clock.now += sc['work']
             if self.progress_logger:
                 self.progress_logger.log_step(progress)
@@ -379,6 +383,7 @@ def run(sc, tape):
         with w:
             conf = F.base_conf({'type': 'file', 'directory_layout': 'tc'}, meta_size=sc['meta_size'])
             conf['grids']['g'] = dict(sc['grid'])
+            conf['caches']['c2'] = copy.deepcopy(conf['caches']['c1'])
             pc = F.make_conf(conf)
             grid = pc.grids['g'].tile_grid()
             cov_conf, geom, files = _coverage_geom(sc, grid.bbox, grid)
@@ -388,7 +393,8 @@ def run(sc, tape):
                 with open(p, 'w') as f:
                     f.write(text)
             lv_conf, levels = _levels(sc, grid.levels, grid)
-            sconf = {'caches': ['c1'], 'grids': ['g']}
+            ncaches = sc.get('caches', 1)
+            sconf = {'caches': ['c1', 'c2'][:ncaches], 'grids': ['g']}
             if isinstance(lv_conf, dict) and 'resolutions' in lv_conf:
                 sconf['resolutions'] = lv_conf['resolutions']
             elif lv_conf is not None:
@@ -421,6 +427,10 @@ def run(sc, tape):
                 return (c[0] // mx, c[1] // my, c[2])
             Uset = set(mkey(c) for c in U)
             must, allowed = _expected(grid, sc['meta_size'], levels, geom, sc['skip_geoms'])
+            if ncaches > 1:
+                # every cache of the seed entry is a task of its own with the same selection
+                must = set((X, Y, z + 100 * k) for (X, Y, z) in must for k in range(ncaches))
+                allowed = set((X, Y, z + 100 * k) for (X, Y, z) in allowed for k in range(ncaches))
             missing = sorted(must - Uset)
             extra = sorted(Uset - allowed)
             probes['handed'] = len(U)
@@ -431,7 +441,7 @@ def run(sc, tape):
             if extra:
                 raise Bad('not-minimal', 'seeding handed meta tile(s) %s whose meta tile lies outside the coverage; grid %s levels %s '
                           'coverage %s' % (extra[:5], sc['gk'], levels, sc['coverage']))
-            wrong_level = sorted(set(c[2] for c in U) - set(levels))
+            wrong_level = sorted(set(c[2] % 100 for c in U) - set(levels))
             if wrong_level:
                 raise Bad('wrong-level', 'tiles of levels %s were handed, selected levels are %s' % (wrong_level, levels))
             info['unspecified'] = len(allowed - must)
